@@ -136,6 +136,9 @@ class TreeStorage(BaseStorage):
             grace_period (int): Grace period of the underlying river Hoeffding Adaptive Trees. Defaults to 200.
             seed (int, optional): Random seed of the underlying river Hoeffding Adaptive Trees. Defaults to None.
         """
+        if seed is None:
+            # river would otherwise seed every tree from OS entropy: derive the seed from the global generator
+            seed = random.randrange(2 ** 32)
         self.feature_names = cat_feature_names + num_feature_names
         self.cat_feature_names = cat_feature_names
         self.num_feature_names = num_feature_names
